@@ -156,10 +156,14 @@ def only_ekin(m, d1, d2, fields):
 
 def check_model(lib, part, job):
     ki, level, energy, integ, nq, thorough = job
-    par, js = M.c04_kinematics(3 if ki[0] == 3 else ki[0])[ki[1]]
     cmp = N.cmp_for(lib)
     opt = A.option_elem(integrator=integ, flags=dict(energy="enable" if energy else "disable"))
-    xml = M.c04_model(par, js, level, opt)
+    if ki[0] == "feat":      # one of the hand-written feature models shared with C01 (history buffers, plugins, mocap, muscles...)
+        par, js = "feature", ki[1]
+        xml = dict(M.C01_MODELS)[ki[1]](opt)
+    else:
+        par, js = M.c04_kinematics(ki[0])[ki[1]]
+        xml = M.c04_model(par, js, level, opt)
     m = lib.load_xml(xml)
     fac = E.Factory(lib, m)
     inp = Inputs(m)
@@ -200,6 +204,8 @@ def check_model(lib, part, job):
                 finally:
                     dA.free()
                     dB.free()
+        if not (thorough or integ in ("Euler", "RK4")):
+            continue        # quick: oracles B-E (which do not integrate) only under two of the four integrators
         # ------------------------------------------------------------------ B: forwardSkip == full forward
         for sname, stage in STAGES.items():
             variants = [0] if sname == "VEL" else [0, 1]      # 1: also change the inputs of the not-skipped earlier stage
@@ -336,11 +342,16 @@ def make_jobs(ctx):
             for energy in (0, 1):
                 for integ in integs:
                     jobs.append(((3, k), level, energy, integ, ctx.q(2, 4), ctx.thorough))
+    for name, _ in M.C01_MODELS:
+        for energy in (0, 1):
+            for integ in integs:
+                jobs.append((("feat", name), "feature", energy, integ, ctx.q(2, 4), ctx.thorough))
     return jobs
 
 
 def run(ctx):
     lib = mj.load()
+    N.register_stateplugin(lib)
     N.cmp_for(lib)
     _init_enums()
     jobs = make_jobs(ctx)
@@ -352,7 +363,8 @@ def run(ctx):
     ctx.extra["models"] = len(jobs)
     ctx.rule = ("all rooted ordered forests with <=3 bodies (8 shapes) x covering joint assignments from %s (40 kinematic models) x "
                 "{lean: actuators with activation + sensors of all stages; full: + floor contacts, limited tendons, equalities} x "
-                "energy flag {off,on} x integrator {Euler, implicit, implicitfast, RK4 (not oracle A)} x (%d configurations x "
+                "energy flag {off,on} (+ the 12 feature models of C01: history buffers, plugins, mocap, muscle, ...) x integrator {Euler, implicit, implicitfast, RK4 (not oracle A); quick: oracles B-E only under Euler "
+                "and RK4} x (%d configurations x "
                 "{zero, mixed} velocity) x oracles A (27 edits x 2 rounds), B (stage NONE/POS/VEL x skipsensor 0/1 x 27 edits "
                 "x {only later-stage inputs edited, also qvel (and qpos for NONE)}), C (same with 3 qacc x 3 xfrc), D, E (27 edits x "
                 "warm start disabled/enabled). non-trivial = at least one input really edited and, for B/C, a stage really skipped"
@@ -368,10 +380,14 @@ def replay(ctx, path):
         r = json.load(fh)["replay"]
     lib = mj.load()
     _init_enums()
-    ks = M.c04_kinematics(3)
-    k = [i for i, (p, j) in enumerate(ks) if list(p) == list(r["parents"]) and list(j) == list(r["joints"])][0]
+    N.register_stateplugin(lib)
     part = core.Part()
-    check_model(lib, part, ((3, k), r["level"], r["energy"], r["integrator"], 4, True))
+    if r["parents"] == "feature":
+        ki = ("feat", r["joints"])
+    else:
+        ks = M.c04_kinematics(3)
+        ki = (3, [i for i, (p, j) in enumerate(ks) if list(p) == list(r["parents"]) and list(j) == list(r["joints"])][0])
+    check_model(lib, part, (ki, r["level"], r["energy"], r["integrator"], 4, True))
     ctx.merge(part)
     ctx.rule = "replay of one model"
     return ctx.finish()
